@@ -257,15 +257,21 @@ func (c *Ctx) heirOf(pkg, name string) *ssa.Function {
 			}
 		}
 	}
-	if len(callers) != 1 {
-		return nil
-	}
-	for _, fn := range c.modFuncs {
-		if FnName(fn) == callers[0] {
-			return fn
+	// callers that are gone themselves (promotion wrappers of the deleted method, or functions
+	// removed in the same change) cannot have taken the code over
+	var alive []*ssa.Function
+	for _, cl := range callers {
+		for _, fn := range c.modFuncs {
+			if FnName(fn) == cl {
+				alive = append(alive, fn)
+				break
+			}
 		}
 	}
-	return nil
+	if len(alive) != 1 {
+		return nil
+	}
+	return alive[0]
 }
 
 func (c *Ctx) funcQuiet(pkg, name string) *ssa.Function {
